@@ -4,7 +4,10 @@ use std::future::Future;
 use std::pin::Pin;
 use std::sync::Arc;
 use std::task::{Context, Poll, Waker};
+#[cfg(not(excsn_fibre_verif))]
 use std::thread::Thread;
+#[cfg(excsn_fibre_verif)]
+use fibre_verif_rt::thread::Thread;
 
 /// Represents a waiter in the queue for a `LoadFuture`.
 pub(crate) enum Waiter {
